@@ -26,7 +26,62 @@ from .core import VERIF_ROOT, AnalysisError, Index, Result, load_known
 DIGEST_FILE = os.path.join(VERIF_ROOT, "bptkverif", "variants_digest.txt")
 
 
+def apply_unified_diff(repo: str, difftext: str) -> Optional[Dict[str, str]]:
+    """Apply a git unified diff to the files under *repo* in memory; None if a hunk does not match."""
+    import re
+    overlay: Dict[str, str] = {}
+    files = re.split(r"^diff --git .*$", difftext, flags=re.M)[1:]
+    for block in files:
+        m = re.search(r"^\+\+\+ b/(.+)$", block, flags=re.M)
+        if not m:
+            continue
+        rel = m.group(1).strip()
+        with open(os.path.join(repo, rel), encoding="utf-8") as fh:
+            lines = fh.read().split("\n")
+        out: List[str] = []
+        pos = 0
+        hunks = re.split(r"^(@@ -\d+(?:,\d+)? \+\d+(?:,\d+)? @@.*)$", block, flags=re.M)[1:]
+        for i in range(0, len(hunks), 2):
+            hm = re.match(r"@@ -(\d+)(?:,(\d+))? \+", hunks[i])
+            start = int(hm.group(1)) - 1
+            body = hunks[i + 1].split("\n")[1:]
+            if start < pos:
+                return None
+            out += lines[pos:start]
+            pos = start
+            for ln in body:
+                if ln.startswith("\\"):
+                    continue
+                if ln.startswith("+"):
+                    out.append(ln[1:])
+                elif ln.startswith("-"):
+                    if pos >= len(lines) or lines[pos] != ln[1:]:
+                        return None
+                    pos += 1
+                elif ln.startswith(" ") or ln == "":
+                    if ln == "" and (pos >= len(lines) or lines[pos] != ""):
+                        continue          # trailing split artefact
+                    if pos >= len(lines) or lines[pos] != ln[1:]:
+                        return None
+                    out.append(lines[pos])
+                    pos += 1
+        out += lines[pos:]
+        overlay[rel] = "\n".join(out)
+    return overlay or None
+
+
 def _apply(repo: str, v: dict) -> Optional[Dict[str, str]]:
+    if "diff" in v:
+        with open(v["diff"], encoding="utf-8") as fh:
+            ov = apply_unified_diff(repo, fh.read())
+        if ov is None:
+            return None
+        for rel, text in ov.items():
+            try:
+                compile(text, rel, "exec", dont_inherit=True)
+            except SyntaxError as e:
+                raise AnalysisError("seeded change %s does not compile: %s" % (v["name"], e))
+        return ov
     overlay: Dict[str, str] = {}
     for rel, old, new in v["edits"]:
         path = os.path.join(repo, rel)
@@ -81,6 +136,17 @@ def run_selftest(prop: str, repo: str, res: Result) -> None:
     from .__main__ import REGISTRY
     from .variants import VARIANTS
     variants = [v for v in VARIANTS if v["prop"] == prop]
+    # the seeded changes kept under /verif/seeded are must-fire variants of their property as well
+    sdir = os.path.join(VERIF_ROOT, "seeded")
+    if os.path.isdir(sdir):
+        import json
+        for name in sorted(os.listdir(sdir)):
+            meta_path = os.path.join(sdir, name, "meta.json")
+            dp = os.path.join(sdir, name, "patch.diff")
+            if os.path.exists(meta_path) and os.path.exists(dp):
+                meta = json.load(open(meta_path))
+                if meta.get("kept") and meta.get("property") == prop:
+                    variants.append(dict(prop=prop, kind="F", name="seeded:" + name, diff=dp, expect=None))
     if not variants:
         res.note("self-validation: no variants registered for %s" % prop)
         return
